@@ -18,6 +18,13 @@ exception semantics the effect does nothing (a `write` may write a prefix of its
 Python exception handlers run (`finally:` 497-501); a crash is "the process stops after some
 step", so the crash states are exactly the visited states `Res.steps` of a run.
 
+Not modelled (stated, not hidden): the parallel writer `_write_parallel` (591-650) and the
+concurrent shard drivers (858-895) — their effects are an interleaving of the same `tmpOnly`
+effects, over which `C08_crash`/`C08_exception` quantify, but the executable `tryBody` below is the
+serial writer; the resolution of a symlinked destination (453-456: the model's `dest` is the
+resolved path); failures an effect produces by itself (e.g. `os.replace` onto a directory) — they
+are instances of "effect k fails", which the fault parameter `f` ranges over.
+
 Core Lean only (linked into the driver).
 -/
 namespace IrVerif.AtomicSave
